@@ -54,6 +54,10 @@ CLAIMED = {
          "Inputs derived from tx3.pest itself (read at run time), 12 token-level mutators over the examples and generated programs, 30 recursive constructs at every nesting depth 1..64 and 7 families of linearly growing definition chains are parsed and analysed in worker subprocesses; every call must return, the parser within a step budget three orders of magnitude above linear behaviour, and CPU time must not grow exponentially with program length. Held = no panic / abort / budget overrun apart from the listed known finding.",
          "termination of analyze is observed by watchdog and growth probe only (it has no step counter); memory is capped at 6 GiB per worker",
          "DESIGN.md section 3 C12"),
+ "C13": ("exploration", "runtime monitor: implication oracle (analyze reports nothing => lower succeeds, facade returns Ok) over semantic mutants of valid generated programs, with panic hook and CPU-time growth probe",
+         "Valid generated programs are put through ~40 kinds of semantic mutation on the generator's own tree (plus token-level mutations) and fed to the real parse / analyze / lower and to Workspace::{parse, analyze, lower}; whenever the analyzer reports no error every tx must lower and the facade must return Ok without panicking. Which mutants the analyzer rejects or accepts is counted per mutator in the evidence. Held apart from the listed known findings (reference cycles, local chains >= 9, odd hex literals, exponential alias chains).",
+         "only the implication is judged; the cause labels reference-cycle / local-chain>=9 come from the harness' own inspection of the mutant",
+         "DESIGN.md section 3 C13"),
  "C14": ("exploration", "runtime monitor: totality oracle (panic hook with in-repo frame extraction, worker signal exits, per-case watchdog) over every public back-end entry point, checked (overflow-checks + debug-assertions) and release profiles",
          "Lowered generator templates with type-correct but hostile arguments, stores and protocol parameters, and random well-formed IR trees a client could send, are pushed through find_params, find_queries, is_constant, apply_args, apply_fees, Node::apply(compiler), reduce, apply_inputs, compile, inputs::resolve and resolve_tx in worker subprocesses; every call must return Ok or Err. Held = no panic, abort or reproducible overrun on any driven call.",
          "arguments are type-correct in the property's sense; stores follow the trait contract and hold amounts below 2^80 in magnitude; nothing is asserted about which of Ok/Err comes back",
